@@ -128,6 +128,9 @@ def _variants(shape):
         big = np.arange(size * 2 ** nd, dtype=float).reshape(tuple(2 * b for b in bshape))
         stepped = big[tuple(slice(None, None, 2) for _ in bshape)]
         yield 'stepped', pattern, np.broadcast_to(stepped, shape)
+        # negative strides: the base reversed along every axis
+        rev = (np.arange(size, dtype=float) * 0.5 - 3).reshape(bshape)[tuple(slice(None, None, -1) for _ in bshape)]
+        yield 'reversed', pattern, np.broadcast_to(rev, shape)
 
 
 def check_bcast(res, shape):
@@ -258,6 +261,32 @@ def check_cat(res, name, n):
             if not ok:
                 res.violation('categorical', 'categorical_ndarray|%s' % name, case, obs,
                               dict(categories=exp_cats.tolist()))
+            # arrays DERIVED from a categorical array whose codes are already known (same shape, other order or
+            # content) must satisfy the same identity
+            try:
+                if arr.size >= 2 and not (ok is False):
+                    c = categorical_ndarray(arr)
+                    c.codes
+                    derived = [('reversed', c[tuple(slice(None, None, -1) for _ in shp)]),
+                               ('rolled', np.roll(c, 1)), ('sorted', np.sort(c, axis=None).reshape(shp)),
+                               ('perm', c.ravel()[np.arange(c.size)[::-1]].reshape(shp))]
+                    if len(shp) == 2 and shp[0] == shp[1]:
+                        derived.append(('T', c.T))
+                    mod = c.copy()
+                    mod.flat[0] = c.flat[c.size - 1]
+                    derived.append(('copy-modified', mod))
+                    for dname, dv in derived:
+                        res.case()
+                        if not isinstance(dv, categorical_ndarray):
+                            continue
+                        dcats, dcodes = dv.categories, dv.codes
+                        if not np.array_equal(np.asarray(dcats)[np.asarray(dcodes).astype(int)], np.asarray(dv)):
+                            res.violation('categorical', 'categorical_ndarray|derived:%s' % dname,
+                                          dict(case, derived=dname),
+                                          dict(values=np.asarray(dv).tolist(), codes=np.asarray(dcodes).tolist(),
+                                               categories=np.asarray(dcats).tolist()), 'categories[codes] == values')
+            except Exception as e:
+                res.violation('categorical', 'categorical_ndarray|derived|raises', case, repr(e), 'no exception')
             try:
                 U, I = unique(arr)
                 ok = (np.array_equal(U, exp_cats) and I.shape == arr.shape and
